@@ -44,7 +44,7 @@ def run(tier, seed):
         if not mc["ok"]:
             raise vlib.InfraError("MP design check (%s) failed:\n%s" % (cfg, mc["out"][-3000:]))
         mcs.append(mc)
-    nwalk = 300 if tier == "quick" else 5000
+    nwalk = 300 if tier == "quick" else 2500
     plain, safe = [], []
     variants = [(None, None), ({"nc_num_aggrs_per_node": "1"}, None), ({"romio_no_indep_rw": "true"}, None), ({"nc_num_aggrs_per_node": "2"}, None)]
     for np_, cfg in [(2, "cfg/MP_sim2_c08.cfg"), (3, "cfg/MP_sim3_c08.cfg")]:
